@@ -25,7 +25,11 @@ ASSUMPTIONS = ['play() runs with time.sleep and now replaced by a fake clock']
 
 
 def pool_msg(k, tm):
-    k = k % 8
+    k = k % 10
+    if k == 8:
+        return {'type': 'pitchwheel', 'channel': 3, 'pitch': -1, 'time': tm}
+    if k == 9:
+        return {'type': 'pitchwheel', 'channel': 3, 'pitch': -2, 'time': tm}
     if k == 7:
         return {'type': 'lyrics', 'text': 'é', 'time': tm}
     if k == 0:
@@ -113,6 +117,8 @@ def reference(model, what):
     from lib import refsmf as F
     if model['type'] == 2 and what != 'save':
         return None
+    if any(d['time'] < 0 for t in model['tracks'] for d in t):
+        return None         # negative deltas: only the staleness oracle (fresh file with the same contents) applies
     if what == 'merged':
         return [(d['type'], d['time']) for d in F.merge_model(model['tracks'])]
     if what in ('length', 'iter'):
@@ -208,6 +214,24 @@ class Interp:
                     del mid.tracks[i]
                     del model['tracks'][i]
                     self._edit()
+            elif kind == 'track_split':
+                # the same messages in the same flattened order, spread over one more track
+                if nt:
+                    i = op[1] % nt
+                    j = op[2] % (len(model['tracks'][i]) + 1)
+                    tail = mid.tracks[i][j:]
+                    del mid.tracks[i][j:]
+                    mid.tracks.insert(i + 1, mido.MidiTrack(tail))
+                    mt = model['tracks'][i]
+                    model['tracks'][i:i + 1] = [mt[:j], mt[j:]]
+                    self._edit()
+            elif kind == 'track_join':
+                if nt >= 2:
+                    i = op[1] % (nt - 1)
+                    mid.tracks[i].extend(mid.tracks[i + 1])
+                    del mid.tracks[i + 1]
+                    model['tracks'][i:i + 2] = [model['tracks'][i] + model['tracks'][i + 1]]
+                    self._edit()
             elif kind == 'tracks_replace':
                 keep = [i for i in range(nt) if (op[1] >> i) & 1]
                 mid.tracks = [mid.tracks[i] for i in keep]
@@ -255,11 +279,11 @@ class Interp:
                         d['time'] = op[4]
                     elif attr == 'field':
                         name = {'note_on': 'note', 'note_off': 'velocity', 'set_tempo': 'tempo', 'marker': 'text',
-                                'control_change': 'value', 'track_name': 'name'}.get(d['type'])
+                                'control_change': 'value', 'track_name': 'name', 'pitchwheel': 'pitch'}.get(d['type'])
                         if name is None:
                             return
-                        val = {'tempo': 100000 + op[4] * 1000, 'text': f't{op[4]}', 'name': f'n{op[4]}'}.get(
-                            name, op[4] % 128)
+                        val = {'tempo': 100000 + op[4] * 1000, 'text': f't{op[4]}', 'name': f'n{op[4]}',
+                               'pitch': -1 - op[4] % 2}.get(name, op[4] % 128)
                         setattr(tr[i], name, val)
                         d[name] = val
                 self._edit()
@@ -419,6 +443,14 @@ class FileMachine(RuleBasedStateMachine):
     def set_charset(self, cs):
         self.ops.append(['charset', cs])
 
+    @rule(i=st.integers(0, 4), j=st.integers(0, 8))
+    def track_split(self, i, j):
+        self.ops.append(['track_split', i, j])
+
+    @rule(i=st.integers(0, 4))
+    def track_join(self, i):
+        self.ops.append(['track_join', i])
+
     @rule()
     def poke_merged(self):
         self.ops.append(['poke_merged'])
@@ -453,7 +485,15 @@ def main(ctx):
     for first in ('length', 'iter', 'merged', 'play', 'save', 'play-abandoned', 'iter-abandoned'):
         for second in ('length', 'iter', 'merged', 'play', 'save'):
             for edit in (['poke_merged'], ['poke_yielded'], ['msg_set', 0, 0, 'time', 240.5], ['type', 0], ['add_track', 'x'], ['charset', 'utf-8'], ['msg_append', 0, 7, 10], ['msg_append', 0, 1, 480], ['msg_set', 0, 0, 'time', 960], ['msg_set', 0, 0, 'field', 5],
+                         ['track_split', 0, 1], ['track_split', 0, 2], ['msg_set', 0, 0, 'time', -2],
                          ['msg_replace', 0, 3, 0, 0], ['tracks_append', [[0, 480]]], ['tpb', 96], ['msg_del', 0, 0],
                          ['tracks_replace', 0], ['name', 0, 'q']):
                 ctx.check({'ops': [['add_track', None], ['msg_append', 0, 0, 480], ['msg_append', 0, 2, 0],
                                    ['msg_append', 0, 1, 480], ['observe', first], edit, ['observe', second]]})
+        for second in ('length', 'iter', 'merged', 'play', 'save'):
+            ctx.check({'ops': [['add_track', None], ['msg_append', 0, 8, 480], ['msg_append', 0, 1, 480], ['observe', first],
+                               ['msg_set', 0, 0, 'field', 1], ['observe', second]]})
+            ctx.check({'ops': [['add_track', None], ['msg_append', 0, 0, -1], ['msg_append', 0, 1, 480], ['observe', first],
+                               ['msg_set', 0, 0, 'time', -2], ['observe', second]]})
+            ctx.check({'ops': [['add_track', None], ['msg_append', 0, 0, 240], ['add_track', None], ['msg_append', 1, 1, 480],
+                               ['observe', first], ['track_join', 0], ['observe', second]]})
